@@ -39,6 +39,11 @@ def gen_case(rs, tier):
         ast["block"]["constraints"].append({"id": "cc0", "kind": "ccons", "factors": [f["id"]],
                                             "pred": {"op": "sum_lt", "c": f["dist"]["hi"] * 0.5}})
         r = krng.choice([0, 0, 1, 2, 3])
+        if W.stream(rs, "two-bounds").random() < 0.4:
+            # a lower bound on the same factor written as a constraint of its own (same factor list, another predicate);
+            # every scripted value satisfies it, so it never costs an attempt
+            lower = {"id": "cc1", "kind": "ccons", "factors": [f["id"]], "pred": {"op": "sum_gt", "c": f["dist"]["hi"] * 0.05}}
+            ast["block"]["constraints"].insert(len(ast["block"]["constraints"]) - W.stream(rs, "two-bounds-order").choice([0, 0, 1]), lower)
     knobs = common.draw_knobs(krng)
     return {"design": ast, "knobs": knobs, "r": r, "bad_trial": krng.randint(0, 7), "n": krng.choice([1, 2]),
             "strategy": krng.choice(["IterateSATGen", "RandomGen"]),
@@ -82,7 +87,7 @@ def run_case(case):
                 local_attempt = (state["attempt"] - 1) % (case["r"] + 1)
                 if local_attempt < case["r"] and t == min(case["bad_trial"], T - 1):
                     return 0.75 + 0.2 * u      # violates x < hi/2
-                return 0.45 * u                # satisfies it
+                return 0.1 + 0.35 * u          # satisfies it (and a lower bound at hi/20)
             return u
         w.rng.float_script = script
         w.draw_cap = 50000
